@@ -6,7 +6,8 @@ import Rustemo.Model.AstEval
     ast evalv <0|1> <grammar> # <tree>   → as `eval` for the named variant (`1` = repaired `@vec` push; diagnostics)
     ast skel <grammar>                   → generated type / fn items `T:..;S:..;E:..;F:..` (file order) | notypes
     ast arms <grammar>                   → calls of the shift / reduce arms `f(context,p0,None);…` | notypes
-    ast class <grammar>                  → types= ascii= distinct= declared= sized= arms= wf= rightvec= vecalt= variant=
+    ast class <grammar>                  → types= ascii= distinct= declared= sized= arms= vecalt= veclabel= pk= wf= rightvec= variant=
+                                           (each `1` = that part of `Skel.wellFormed` holds; rightvec=1: F7 class)
 
 * grammar: records separated by `|`:
     `cfg <loc 0|1> <rn 0|1> <start symbol>`; `t <name> <content> <reach>` (terminals without STOP);
@@ -163,7 +164,7 @@ def classLine (g : AGrammar) : String :=
   | none => s!"types=0 ascii={n01 ascii}"
   | some ts =>
     let s := skeleton g ts
-    s!"types=1 ascii={n01 ascii} distinct={n01 s.namesDistinct} declared={n01 s.refsDeclared} sized={n01 s.sized} arms={n01 s.armsTyped} wf={n01 s.wellFormed} rightvec={n01 (hasRightVec ts)} vecalt={n01 (vecAltMismatch ts)} variant={if repoFixed then "fixed" else "asIs"}"
+    s!"types=1 ascii={n01 ascii} distinct={n01 s.namesDistinct} declared={n01 s.refsDeclared} sized={n01 s.sized} arms={n01 s.armsTyped} vecalt={n01 s.vecAltsOk} veclabel={n01 s.vecLabelsOk} pk={n01 (nodup s.prodKinds)} wf={n01 s.wellFormed} rightvec={n01 (hasRightVec ts)} variant={if repoFixed then "fixed" else "asIs"}"
 
 def splitHash (s : String) : Option (String × String) :=
   match s.splitOn " # " with
